@@ -155,6 +155,7 @@ int main(void)
 		PROP(!accepted, "C12: a signature the primitive rejects is rejected");
 	if (!vg_import_failed)
 		PROP(vg_live_handles == 0, "C06: every GnuTLS key handle is released (paths on which GnuTLS itself did not fail)");
+	PROP(vg_der_live == 0, "C06: the re-encoded ECDSA signature (gnutls_encode_rs_value) is released on every path, accepted or rejected");
 	REACH(accepted && jwt.alg == JWT_ALG_ES384, "ES384 accepted");
 	REACH(accepted && jwt.alg == JWT_ALG_PS256 && vg_key_pk == GNUTLS_PK_RSA, "PS256 accepted with a plain RSA key");
 	REACH(accepted && jwt.alg == JWT_ALG_EDDSA && vg_key_pk == GNUTLS_PK_EDDSA_ED448, "Ed448 accepted");
